@@ -11,12 +11,14 @@ mod c05;
 mod c06;
 mod c07;
 mod c13;
+mod c19;
 mod c14;
 mod c15;
 mod c16;
 mod c17;
 mod client;
 mod cs;
+mod hist;
 mod real;
 mod seqs;
 mod sim;
@@ -60,10 +62,6 @@ fn main() {
     let tier = if let Some(r) = &replay_only { r["tier"].as_str().unwrap_or(&tier).to_string() } else { tier };
     let run = RunInfo { property: property.clone(), tier, seed, start: Instant::now(), verif_dir, replay_only };
     quiet_panics();
-    if property == "BENCH" {
-        c07::bench();
-        return;
-    }
     let summary = match property.as_str() {
         "C01" => c0103::run(&run, false),
         "C02" => c02::run(&run),
@@ -73,6 +71,7 @@ fn main() {
         "C06" => c06::run(&run),
         "C07" => c07::run(&run),
         "C11" => wf::run_c11(&run),
+        "C19" => c19::run(&run),
         "C13" => c13::run(&run),
         "C14" => c14::run(&run),
         "C15" => c15::run(&run),
